@@ -3,6 +3,7 @@ import GFS.Base.Md5
 import GFS.Model.Front
 import GFS.Model.Uploader
 import GFS.Model.Upload
+import GFS.Model.UploadPart
 import GFS.Spec.Multipart
 import GFS.Spec.S3
 import GFS.Spec.Listing
@@ -334,6 +335,40 @@ def stepState0 (st : DState) (toks : List String) : Option (DState × Out × Str
          some ({ st with upl := u, mspec := ms }, Out.ok, s!"part {toHex (Bytes.hexLower h)}", sp)
        | .err c => some ({ st with upl := u }, Out.err c, s!"err {c.name}", sp)
        | .panic _ => some ({ st with upl := u }, Out.ok, "panic", sp))
+  | ["mppartx", b, k, id, pn, cl, md5c, body] =>
+    -- the whole handler: part number and Content-Length as sent, Content-MD5 classified by the harness
+    let mh : Md5Hdr := if md5c == "A" then .absent else if md5c == "E" then .empty else if md5c == "M" then .malformed
+      else .digest (fromHex (md5c.drop 2).toString)
+    let bodyB := fromHex body
+    let clv : Option Bytes := if cl == "~" then none else some (fromHex cl)
+    let rq : PartReq := ⟨parseInt64 (fromHex pn), clv, mh, bodyB⟩
+    let (u, r) := Front.uploadPartReq md5 st.ucfg st.upl (fromHex b) (fromHex k) (parseNat id) rq
+    -- specification (C08): refused when the digest does not match the bytes, the digest header is
+    -- malformed or empty (integrity on), or the length differs from the declared one; otherwise a
+    -- part sent to a pending upload is acknowledged with the MD5 of its bytes
+    let known := st.mspec.any (fun s => s.id == parseNat id && s.bucket == fromHex b && s.key == fromHex k)
+    let wellFormed := match rq.partNumber, clv.bind parseInt64 with
+      | some n, some sz => decide (1 ≤ n) && decide (n ≤ 10000) && decide (0 < sz)
+      | _, _ => false
+    let badDigest := st.ucfg.integrity && (match mh with
+      | .digest d => !(d == md5 bodyB)
+      | .malformed => true
+      | .empty => true
+      | .absent => false)
+    let badLen := match clv.bind parseInt64 with
+      | some sz => !(decide ((bodyB.length : Int) = sz))
+      | none => true
+    let sp := if !wellFormed then "-"
+              else if badDigest || badLen then "rejected"
+              else if known then "part " ++ toHex (Bytes.hexLower (md5 bodyB))
+              else "err NoSuchUpload"
+    (match r with
+     | .ok h =>
+       let ms := st.mspec.map fun s => if s.id == parseNat id then
+         Spec.Multipart.setLatest s ((parseInt64 (fromHex pn)).getD 0).toNat bodyB else s
+       some ({ st with upl := u, mspec := ms }, Out.ok, s!"part {toHex (Bytes.hexLower h)}", sp)
+     | .err c => some ({ st with upl := u }, Out.err c, s!"err {c.name}", sp)
+     | .panic _ => some ({ st with upl := u }, Out.ok, "panic", sp))
   | ["mpcomplete", b, k, id, listed] =>
     let ls : List (Int × Bytes) := if listed == "~" then [] else
       (listed.splitOn ",").map fun e => match e.splitOn ":" with
